@@ -514,7 +514,7 @@ class XBuffer(ABC):
 
     def update_from_xbuffer(self, offset, source, source_offset, nbytes):
         """Copy data from any xbuffer, don't pass through cpu if possible"""
-        if source.context == self.context:
+        if source.context == self.context and isinstance(source, type(self)):
             self.update_from_native(
                 offset, source.buffer, source_offset, nbytes
             )
